@@ -40,8 +40,10 @@ class Ctx:
 
     def lost(self, rid, what, missing=False):
         """the rule cannot interpret what it finds.
-        missing=True  - a function / type / constant the property is anchored in no longer exists under its name:
-                        fail closed (a violation), the check cannot say anything about the property any more.
+        missing=True  - a function / type / constant the property is anchored in no longer exists under its name (and
+                        was not recognised as renamed): UNDECIDED, marked `anchor-missing:` in the key. (Until round 5
+                        this failed closed; renaming a private helper and changing its parameters is a refactoring a
+                        maintainer makes, and an alarm on it is an alarm on correct code.)
         missing=False - the anchor exists but is written in an idiom the rule does not recognise (helper extracted,
                         loop replaced by an iterator chain, match replaced by an if-chain ...): UNDECIDED. It is
                         reported (stdout line, evidence) but it is not an alarm: a behaviour-preserving rewrite must
@@ -49,8 +51,9 @@ class Ctx:
         if rid not in self.rules:
             self.rule(rid, "(anchor)")
         if missing:
-            self.ob(rid, "anchor-lost:" + what, False, "anchor lost: %s (the function / item the property is anchored in is gone or renamed; the check cannot decide anything about it)" % what)
-            return
+            # the function / item is gone and no renamed twin with the same signature was found (inline.alias_renamed):
+            # the mechanism lives somewhere else now. Nothing is known about it - that is no evidence of a defect either.
+            what = "anchor-missing:" + what
         r = self.rules[rid]
         r["instances"] += 1
         r["undecided"] = r.get("undecided", 0) + 1
